@@ -1,4 +1,5 @@
 import AnonCreds.Model.Claims
+import AnonCreds.Model.Sigma
 /-
 Model of the decision logic of `Presentation::verify` (`src/presentation/verify.rs`): the dispatch of
 (statement, proof) pairs, the disclosed-claims check, reference resolution of predicate statements, the
@@ -169,5 +170,19 @@ element equals the first; an empty list is an error -/
 def allEqual {F : Type} [DecidableEq F] : List F → Bool
   | [] => false            -- "must have at least one claim in an equality proof"
   | p :: ps => ps.all (· == p)
+
+/-- the response every predicate verifier links to: the caller sorts the proof's revealed indices,
+walks them with `get_hidden_message_proofs` and picks the entry of the statement's claim index -/
+def linkedResponse {F : Type} (n offset : Nat) (rvl : List Nat) (proof : List F) (claim : Nat) : Option F :=
+  match AC.Sigma.hiddenProofs n offset (rvl.mergeSort (· ≤ ·)) proof with
+  | some l => (l.find? (·.1 == claim)).map (·.2)
+  | none => none
+
+/-- `EqualityVerifier::verify`: the linked responses of all references exist and are equal -/
+def equalityVerdict {F : Type} [DecidableEq F] (offset : Nat) (claim : Nat)
+    (refs : List (Nat × List Nat × List F)) : Bool :=
+  match refs.mapM (fun r => linkedResponse r.1 offset r.2.1 r.2.2 claim) with
+  | some rs => allEqual rs
+  | none => false
 
 end AC.Verify
